@@ -81,8 +81,11 @@ class TextualRepository(Repository):
 
     def __delimted_reading(self, line: str, delimiter: str) -> List[Any]:
         values = [v.strip() for v in line.split(delimiter)]
-        for field, value in zip(self._fields, values):
-            self.__with_token_positions(field, field.read, value)
+        for i, field in enumerate(self._fields):
+            if i < len(values):
+                self.__with_token_positions(field, field.read, values[i])
+            else:
+                field.value = None
         return self.values
 
     # Override
